@@ -24,15 +24,25 @@ Inductive exn :=
 | EWorker (e : Z)        (* the exception the function raised, re-raised in the parent *)
 | EPickle                (* the return value could not be pickled (AttributeError/PicklingError/TypeError) *)
 | ESysExit (n : Z)       (* SystemExit raised by the function: sent back like any exception *)
-| EKeyboardInt           (* KeyboardInterrupt raised inside the function by SIGINT *)
-| EAioCancelled (e : Z). (* asyncio.CancelledError carrying the args of a concurrent.futures.CancelledError
-                            raised by the function (asyncio.futures._convert_future_exc changes the class) *)
+| EKeyboardInt.          (* KeyboardInterrupt raised inside the function by SIGINT *)
 
+Definition exn_eqb (a b : exn) : bool :=
+  match a, b with
+  | EBrokenPool, EBrokenPool | EPickle, EPickle | EKeyboardInt, EKeyboardInt => true
+  | EWorker x, EWorker y | ESysExit x, ESysExit y => Z.eqb x y
+  | _, _ => false
+  end.
+
+(** The function runs inside the wrapper `_call` ([call_prog]): its return value or the
+    exception it raised -- of ANY class, BaseException included -- comes back as DATA in the
+    result `(ret, exc)` of the executor's future; the future itself raises only for transport
+    errors (the result cannot be pickled / rebuilt: the wrapper checks the exception by a
+    pickle round trip inside the worker, so that error too arrives through the future) and
+    BrokenProcessPool when the process died. *)
 Inductive answer :=
-| AValue (v : Z) | ARaise (e : exn)
-| ANever.     (* the asyncio future wrapping the executor's future is never resolved: the function raised
-                 StopIteration and Future.set_exception refuses it (TypeError inside the
-                 _chain_future._set_state callback, reported to the loop's exception handler only) *)
+| AValue (v : Z)      (* (v, None) *)
+| AData (e : exn)     (* (None, e): the exception the function raised *)
+| ARaise (e : exn).   (* `await future` raises *)
 
 (** One further fact about the environment matters as soon as the worker LOGS while
     log collection is on (found by the matrix, see harness/props/c17.py; recorded as
@@ -96,6 +106,9 @@ Definition run_prog : stmt :=
                  (Do ShutdownInThread))))))
       ReturnRetExc.
 
+(** `_call`, in the worker *)
+Definition call_prog : list cstmt := [CReturnValue; CCatchBaseException; CWrapTraceback; CRoundTrip; CReturnException].
+
 Definition outer_prog : list outer :=
   [OInitProcess; ONewEvent; OCreateTask; OAwaitEvent; OAssertProcess; OMakeHandle; OReturnHandle].
 Definition init_prog : list init := [IStoreProcess; IStoreTask; INowCreated; IFormat; ILogCreated].
@@ -141,8 +154,7 @@ Definition emit (s : st) (l : list ev) : st := mkSt (trace s ++ l) (ret s) (exc 
 Inductive hang_stage :=
 | HShutdown      (* blocked for ever in the executor's shutdown (cannot happen in this model any more;
                     kept so that such an observation is expressible and disagrees) *)
-| HListener      (* `await task` in MultiprocessingLogging's finally never completes *)
-| HFuture.       (* `ret = await future` never completes *)
+| HListener.     (* `await task` in MultiprocessingLogging's finally never completes *)
 
 Inductive completion := CNormal | CRaise (e : exn) | CReturn | CHang (h : hang_stage).
 
@@ -167,8 +179,8 @@ Definition do_action (w : world) (a : action) (s : st) : completion * st :=
       let s' := emit s [VFutureAwaited] in
       match ans w with
       | AValue v => (CNormal, mkSt (trace s') (Some v) (exc s') (stack s') (cur s'))
+      | AData e => (CNormal, mkSt (trace s') (ret s') (Some e) (stack s') (cur s'))
       | ARaise e => (CRaise e, s')
-      | ANever => (CHang HFuture, s')
       end
   | StoreExc => (CNormal, mkSt (trace s) (ret s) (cur s) (stack s) (cur s))
   | Pass => (CNormal, s)
@@ -345,8 +357,7 @@ Definition same_outcome (a b : await_result) : bool :=
   | Yields x, Yields y =>
       match returned x, returned y with Some u, Some v => Z.eqb u v | None, None => true | _, _ => false end
       && match raised x, raised y with
-         | Some e, Some f => Z.eqb (match e with EWorker n | ESysExit n | EAioCancelled n => n | _ => 0 end)
-                                   (match f with EWorker n | ESysExit n | EAioCancelled n => n | _ => 0 end)
+         | Some e, Some f => exn_eqb e f
          | None, None => true | _, _ => false end
       && Nat.eqb (created_at x) (created_at y) && (exited_at x <=? exited_at y)%nat
   | _, _ => false
@@ -370,18 +381,10 @@ Definition joined (l : list ev) : bool :=
 (** ---- the worker side: behaviours, signals and which answers they allow *)
 Inductive sigk := SInt | STerm | SKill.
 
-(** exception classes the transport between the two processes does not carry faithfully
-    (known findings of C17, read from the matrix) *)
-Inductive oddkind :=
-| OStopIteration     (* StopIteration: cannot be put into an asyncio Future *)
-| OCfCancelled       (* concurrent.futures.CancelledError: converted to asyncio.CancelledError *)
-| OUnloadable.       (* pickles in the child, cannot be rebuilt in the parent: the pool breaks, the worker is terminated *)
-
 Inductive behaviour :=
 | Ret (v : Z)
-| Exn (e : Z)          (* raises an exception of any class that travels faithfully *)
-| ExnOdd (k : oddkind) (e : Z)
-| Unpicklable          (* the return value -- or the exception raised -- cannot be pickled in the child *)
+| Exn (e : Z)          (* raises an exception of any class (StopIteration, CancelledError, BaseException ... included) *)
+| Unpicklable          (* the return value, or the exception raised, cannot be pickled or rebuilt *)
 | SysExit (n : Z) | HardExit (n : Z).
 
 Inductive instant :=
@@ -396,32 +399,23 @@ Definition scenario := (behaviour * option (sigk * instant))%type.
 Definition natural (b : behaviour) : answer :=
   match b with
   | Ret v => AValue v
-  | Exn e => ARaise (EWorker e)
-  | ExnOdd OStopIteration _ => ANever
-  | ExnOdd OCfCancelled e => ARaise (EAioCancelled e)
-  | ExnOdd OUnloadable _ => ARaise EBrokenPool
+  | Exn e => AData (EWorker e)
   | Unpicklable => ARaise EPickle
-  | SysExit n => ARaise (ESysExit n)
+  | SysExit n => AData (ESysExit n)
   | HardExit _ => ARaise EBrokenPool
   end.
 
 (** a signal that wins *)
 Definition struck (s : sigk) (i : instant) : answer :=
   match s, i with
-  | SInt, Running => ARaise EKeyboardInt     (* KeyboardInterrupt inside the function *)
+  | SInt, Running => AData EKeyboardInt      (* KeyboardInterrupt inside the function, caught by the wrapper *)
   | _, _ => ARaise EBrokenPool
   end.
 
 Definition answer_eqb (a b : answer) : bool :=
   match a, b with
   | AValue x, AValue y => Z.eqb x y
-  | ARaise EBrokenPool, ARaise EBrokenPool => true
-  | ARaise (EWorker x), ARaise (EWorker y) => Z.eqb x y
-  | ARaise EPickle, ARaise EPickle => true
-  | ARaise (ESysExit x), ARaise (ESysExit y) => Z.eqb x y
-  | ARaise EKeyboardInt, ARaise EKeyboardInt => true
-  | ARaise (EAioCancelled x), ARaise (EAioCancelled y) => Z.eqb x y
-  | ANever, ANever => true
+  | AData e, AData f | ARaise e, ARaise f => exn_eqb e f
   | _, _ => false
   end.
 
@@ -441,7 +435,6 @@ Definition signum (s : sigk) : Z := match s with SInt => 2 | STerm => 15 | SKill
 Definition exit_code (sc : scenario) (a : answer) : option Z :=
   match sc with
   | (HardExit n, None) => Some (n mod 256)
-  | (ExnOdd OUnloadable _, None) => Some (-15)    (* the executor terminates the worker of a broken pool *)
   | (_, None) => Some 0
   | (_, Some (SInt, Running)) => Some 0          (* the worker survives the KeyboardInterrupt *)
   | (_, Some (SInt, _)) => None
@@ -489,11 +482,10 @@ Definition sig_of (m : method) : sigk :=
 
 (** ---- correspondence with the real runs (harness/props/c17.py writes [cases]) *)
 Inductive shape := ShValue | ShExn (k : Z) | ShNeither | ShBoth.
-(* exception kinds: 1 worker's own, 2 pickling, 3 SystemExit, 4 KeyboardInterrupt,
-   5 asyncio.CancelledError in place of a concurrent.futures.CancelledError, 0 other *)
+(* exception kinds: 1 worker's own, 2 pickling, 3 SystemExit, 4 KeyboardInterrupt, 0 other *)
 
 Definition exn_kind (e : exn) : Z :=
-  match e with EWorker _ => 1 | EPickle => 2 | ESysExit _ => 3 | EKeyboardInt => 4 | EAioCancelled _ => 5 | EBrokenPool => 0 end.
+  match e with EWorker _ => 1 | EPickle => 2 | ESysExit _ => 3 | EKeyboardInt => 4 | EBrokenPool => 0 end.
 
 Definition shape_of (x : exited) : shape :=
   match returned x, raised x with
@@ -528,7 +520,7 @@ Record obs := mkObs {
                                  3: stuck elsewhere *)
 }.
 
-Definition hang_code (h : hang_stage) : Z := match h with HShutdown => 1 | HListener => 2 | HFuture => 4 end.
+Definition hang_code (h : hang_stage) : Z := match h with HShutdown => 1 | HListener => 2 end.
 
 Definition opt_eqb (a b : option Z) : bool :=
   match a, b with Some x, Some y => Z.eqb x y | None, None => true | _, _ => false end.
